@@ -20,7 +20,8 @@ PROPS = {
                        dict(profile='C11', flavor='asan', quick=4000, thorough=200000, modeb=True)], level='exploration'),
     'C12': dict(parts=[dict(profile='C12', flavor='asan', quick=15000, thorough=500000)], level='exploration'),
     'C13': dict(parts=[dict(profile='C13', flavor='asan', quick=15000, thorough=500000)], level='exploration'),
-    'C14': dict(parts=[dict(profile='C14', flavor='asan', quick=500, thorough=3000, enumerate=True, quick_args=['--max-subs', '500'], thorough_args=[])], level='fault_enumeration'),
+    'C14': dict(parts=[dict(profile='C14', flavor='asan', quick=500, thorough=3000, enumerate=True, quick_args=['--max-subs', '500'], thorough_args=[]),
+                       dict(profile='C14B', flavor='asan', quick=24, thorough=400, enumerate=True, modeb=True, quick_subs=150, thorough_subs=0)], level='fault_enumeration'),
     'C16': dict(parts=[dict(profile='C16', flavor='asan', quick=20000, thorough=300000)], level='exploration'),
     'C17': dict(parts=[dict(profile='C17', flavor='asan', quick=12000, thorough=500000)], level='exploration'),
     'C20': dict(parts=[dict(profile='C20', flavor='asan', quick=3000, thorough=250000),
@@ -181,7 +182,7 @@ class Worker:
                 s = died + 1
 
 
-def run_parallel(binp, profile, start, count, wall, chunk=None, modeb=False, prefix=None, extra=None):
+def run_parallel(binp, profile, start, count, wall, chunk=None, modeb=False, prefix=None, extra=None, enum_subs=None):
     out = dict(runs=[], summaries=[], deaths=[], infra=[], skipped=0)
     lock = threading.Lock()
     q = queue.Queue()
@@ -203,7 +204,9 @@ def run_parallel(binp, profile, start, count, wall, chunk=None, modeb=False, pre
             except queue.Empty:
                 return
             local = dict(runs=[], summaries=[], deaths=[], infra=[], skipped=0)
-            if modeb:
+            if modeb and enum_subs is not None:
+                run_modeb_enum(binp, profile, a, local, deadline, enum_subs)
+            elif modeb:
                 run_modeb_one(binp, profile, a, local, deadline)
             else:
                 w.run_range(a, n, local, deadline)
@@ -220,12 +223,41 @@ def run_parallel(binp, profile, start, count, wall, chunk=None, modeb=False, pre
     return out
 
 
-def run_modeb_one(binp, profile, seed, out, deadline):
+def run_modeb_enum(binp, profile, seed, out, deadline, max_subs):
+    """Enumeration over failing allocation indices for a Mode-B scenario: one process per execution."""
+    ref = dict(runs=[], summaries=[], deaths=[], infra=[], skipped=0)
+    run_modeb_one(binp, profile, seed, ref, deadline)
+    for k in ('runs', 'summaries', 'deaths', 'infra'):
+        out[k].extend(ref[k])
+    out['skipped'] += ref['skipped']
+    if not ref['runs']:
+        return
+    n_alloc = int((ref['runs'][0].get('probe') or {}).get('alloc_calls', 0))
+    if n_alloc <= 0:
+        return
+    if max_subs and n_alloc > max_subs:
+        step = n_alloc / float(max_subs)
+        off = (seed % 97) / 97.0 * step
+        subs = sorted(set(min(n_alloc, 1 + int(off + k * step)) for k in range(max_subs)))
+    else:
+        subs = list(range(1, n_alloc + 1))
+    for n in subs:
+        if time.time() > deadline:
+            out['skipped'] += 1
+            continue
+        before = len(out['deaths'])
+        run_modeb_one(binp, profile, seed, out, deadline, extra=['--fail-at', str(n)])
+        for d in out['deaths'][before:]:
+            d['sub'] = n
+    out['summaries'].append(dict(stat={'enum.scenarios': 1, 'enum.alloc_calls_in_reference': n_alloc, 'enum.failing_indices_run': len(subs), 'enum.scenarios_exhaustive': 1 if len(subs) == n_alloc else 0}))
+
+
+def run_modeb_one(binp, profile, seed, out, deadline, extra=None):
     if time.time() > deadline:
         out['skipped'] += 1
         return
     try:
-        p = subprocess.run([binp, '--profile', profile, '--seed', str(seed), '--count', '1'], stdout=subprocess.PIPE, stderr=subprocess.PIPE, text=True, timeout=120)
+        p = subprocess.run([binp, '--profile', profile, '--seed', str(seed), '--count', '1'] + (extra or []), stdout=subprocess.PIPE, stderr=subprocess.PIPE, text=True, timeout=120)
     except subprocess.TimeoutExpired:
         out['deaths'].append(dict(seed=seed, sig='watchdog', rc=-1, stderr='timeout'))
         return
@@ -448,7 +480,9 @@ def do_check(root, prop, tier, seed):
         binp = bins[part['flavor']]
         count = part[tier]
         wall = wall_total / nparts
-        if part.get('enumerate'):
+        if part.get('enumerate') and part.get('modeb'):
+            res = run_parallel(binp, part['profile'], start + pi * 500000, count, wall, modeb=True, enum_subs=part.get(tier + '_subs', 0))
+        elif part.get('enumerate'):
             res = run_parallel(binp, part['profile'], start, count, wall, chunk=1, extra=part.get(tier + '_args'))
         elif part['flavor'] == 'valgrind':
             res = run_parallel(binp, part['profile'], start + pi * 500000, count, wall, chunk=max(2, count // (WORKERS * 2)), prefix=VALGRIND)
@@ -496,21 +530,28 @@ def do_check(root, prop, tier, seed):
     new_viol = []
     for cls in sorted(own):
         occ = sorted(own[cls])
-        seed0, detail0, pi, sub0 = occ[0]
-        part = spec['parts'][pi]
-        binp = bins[part['flavor']]
-        k = None
-        # sanitizer deaths of this check may belong to a finding recorded for another property
-        for kk in known.get('findings', []):
-            if re.search(kk['class_regex'], cls) and (not kk.get('detail_regex') or re.search(kk['detail_regex'], detail0 or '')):
-                k = kk
-                break
-        if k is not None:
+        # every occurrence is matched on its own: a listed finding only absorbs the occurrences whose facts it names
+        # (sanitizer deaths of this check may belong to a finding recorded for another property)
+        rest = []
+        for o in occ:
+            k = None
+            for kk in known.get('findings', []):
+                if re.search(kk['class_regex'], cls) and (not kk.get('detail_regex') or re.search(kk['detail_regex'], o[1] or '')):
+                    k = kk
+                    break
+            if k is None:
+                rest.append(o)
+                continue
             line = 'KNOWN-FINDING: property=%s %s' % (k['property'], k['what'])
             if k['property'] == prop and line not in known_lines:
                 known_lines.append(line)
-            stat['runs_cut_short_by_known_finding'] = stat.get('runs_cut_short_by_known_finding', 0) + len(occ)
+            stat['runs_matching_known_finding'] = stat.get('runs_matching_known_finding', 0) + 1
+        if not rest:
             continue
+        occ = rest
+        seed0, detail0, pi, sub0 = occ[0]
+        part = spec['parts'][pi]
+        binp = bins[part['flavor']]
         plan = get_plan(binp, part['profile'], seed0)
         if sub0:
             plan['cfg'].setdefault('knobs', {})['fail_at'] = sub0   # the failing allocation index is part of the replay
